@@ -92,6 +92,8 @@ instance : Codec Err where
     | .composeFormError => "composeFormError"
     | .composeRangeError => "composeRangeError"
     | .errorsNew => "errorsNew"
+    | .jsonUnsupportedValue => "jsonUnsupportedValue"
+    | .jsonUnmarshalType => "jsonUnmarshalType"
   dec s := match s with
     | "nil" => some .nil
     | "parseNumberRangeError" => some .parseNumberRangeError
@@ -101,6 +103,8 @@ instance : Codec Err where
     | "composeFormError" => some .composeFormError
     | "composeRangeError" => some .composeRangeError
     | "errorsNew" => some .errorsNew
+    | "jsonUnsupportedValue" => some .jsonUnsupportedValue
+    | "jsonUnmarshalType" => some .jsonUnmarshalType
     | _ => none
 
 /-- flatten a result tuple into protocol tokens -/
@@ -120,6 +124,8 @@ def panicName : Panic → String
   | .slice => "PANIC:slice"
   | .shift => "PANIC:shift"
   | .explicit _ => "PANIC:explicit"
+  | .makeslice => "PANIC:makeslice"
+  | .unmodelled _ => "PANIC:unmodelled"
 
 end Codec
 end Go
